@@ -8,7 +8,9 @@
 
 mod gen_common;
 mod gen_sm2enc;
+mod gen_sm2kex;
 mod gen_sm2sig;
+mod gen_sm9;
 mod gen_zuc;
 mod libglue;
 mod objs;
